@@ -32,6 +32,9 @@ def run(ctx):
     rep.rule("C07.R2", "attribute resolution / callable misuse / helper arity under E_pot", 8)
     rep.rule("C07.R3", "energy atoms are covered by the generalized force", 3)
     rep.rule("C07.R4", "compliance form provides the full protocol from the same accessors", 4)
+    rep.rule("C07.R6", "Revolute as scalar subsystem: angle l and rate l_dot / force direction W_l are oriented about the same axis (else power = +dE/dt)", 4)
+    from .c25 import orientation_rule
+    orientation_rule(ctx, "C07.R6")
     rep.rule("C07.R5", "energy, force direction and Jacobian of one force element refer to the same material point (xi, B_r_CP)", 4)
     owners = []
     for ci in ctx.model.all_classes():
@@ -192,6 +195,10 @@ MUTANTS += [
     dict(id="c07-r5-2", what="TwoPointInteraction: velocity of point 2 taken at the centre of mass", file="cardillo/interactions/two_point_interaction.py",
          old="        self.v_P2 = lambda t, q, u: self.subsystem2.v_P(\n            t, q[self._nq1 :], u[self._nu1 :], self.xi2, self.B_r_CP2\n        )",
          new="        self.v_P2 = lambda t, q, u: self.subsystem2.v_P(\n            t, q[self._nq1 :], u[self._nu1 :], self.xi2\n        )", expect="C07.R5"),
+]
+MUTANTS += [
+    dict(id="c07-r6-seed", canary=True, what="[seeded by sub-agent] Revolute.plane_axes = np.delete((0, 1, 2), axis): left-handed pair for axis = 1", file="cardillo/constraints/revolute.py",
+         old="        self.plane_axes = np.roll([0, 1, 2], -axis)[1:]", new="        self.plane_axes = np.delete((0, 1, 2), axis)", expect="C07.R6"),
 ]
 NEUTRAL = [
     dict(id="c07-n-r5", canary=True, what="Force lambdas rewritten with keyword arguments (same point)", file="cardillo/forces/force.py",
